@@ -674,6 +674,11 @@ func (x *CommonLex) Next() rune {
 	if c == utf8.RuneError && size == 1 {
 		return xutils.ERR
 	}
+	if c == 0 {
+		// A NUL character has the value of the EOF marker: it would end
+		// the expression silently and hide whatever follows it.
+		return xutils.ERR
+	}
 	return c
 }
 
@@ -702,7 +707,7 @@ func next(line []byte) (rune, []byte) {
 	}
 	c, size := utf8.DecodeRune(line)
 	line = line[size:]
-	if c == utf8.RuneError && size == 1 {
+	if (c == utf8.RuneError && size == 1) || c == 0 {
 		return xutils.ERR, nil
 	}
 	return c, line
